@@ -17,18 +17,21 @@ RAW_WRITE = ("vecdb::variants::raw::inner::read_write::any_stored_vec::<impl vec
              "for vecdb::variants::raw::inner::read_write::ReadWriteRawVec<I, T, S>>::write")
 CMP_WRITE = ("vecdb::variants::compressed::inner::read_write::any_stored_vec::<impl vecdb::traits::any_stored::"
              "AnyStoredVec for vecdb::variants::compressed::inner::read_write::ReadWriteCompressedVec<I, T, S>>::write")
-TW = M(r"rawdb::region::Region::truncate_write")
-USL = M(r"vecdb::base::read_write::ReadWriteBaseVec::<I, T>::update_stored_len")
+TW = M(r"rawdb::region::Region::truncate_write", reach="must")
+USL = M(r"vecdb::base::read_write::ReadWriteBaseVec::<I, T>::update_stored_len|vecdb::base::shared_len::SharedLen::set", reach=True, label="update_stored_len")
 CPUSH = M(r"vecdb::variants::compressed::inner::pages::Pages::checked_push")
 GET = "vecdb::base::shared_len::SharedLen::get"
 SET = "vecdb::base::shared_len::SharedLen::set"
 MK_READER = "rawdb::region::Region::create_reader"
 ORD = {"0": "Relaxed", "1": "Release", "2": "Acquire", "3": "AcqRel", "4": "SeqCst"}
 
+import props.anchors as anchors
+
 
 def run(ctx, chk):
     O, P, L = ctx.O, ctx.P, ctx.L
     rw = O.body(RAW_WRITE)
+    anchors.check(ctx, chk, ['update_stored_len', 'stored_len', 'truncate_write', 'pages_push', 'pages_truncate', 'pages_flush', 'create_reader', 'reader_new_mmap', 'write_to_mmap'])
     cw = O.body(CMP_WRITE)
     # B09.1
     us = O.need_sites(rw, USL, 1)
